@@ -270,25 +270,24 @@ Proof.
   intro H. injection H as _ _ H3. subst rest. cbn [length]. rewrite skipn_length. lia.
 Qed.
 
-Lemma packet_f_ok fuel : forall lim acc i, (length i < fuel)%nat ->
-  packet_f fuel lim acc i <> PFuel /\
-  (forall q p rest, packet_f fuel lim acc i = PDone q p rest -> (length rest + 4 <= length i)%nat).
+Lemma packet_f_ok fuel : forall lim acc ok i, (length i < fuel)%nat ->
+  packet_f fuel lim acc ok i <> PFuel /\
+  (forall q p rest, packet_f fuel lim acc ok i = PDone q p rest -> (length rest + 4 <= length i)%nat).
 Proof.
-  induction fuel as [|f IH]; intros lim acc i Hlt; [lia|].
+  induction fuel as [|f IH]; intros lim acc ok i Hlt; [lia|].
   cbn [packet_f].
   destruct (try_full lim i) as [[[q body] rest]|] eqn:Ef.
   - pose proof (try_full_rest _ _ _ _ _ Ef) as Hr.
     assert (Hf : (length rest < f)%nat) by lia.
     destruct acc as [[q0 p0]|].
-    + destruct (_ =? _).
-      * destruct (IH lim (Some (q, p0 ++ body)) rest Hf) as [H1 H2]. split; [exact H1|].
-        intros q' p' rest' E. specialize (H2 _ _ _ E). lia.
-      * split; [discriminate | intros; discriminate].
-    + destruct (IH lim (Some (q, body)) rest Hf) as [H1 H2]. split; [exact H1|].
+    + destruct (IH lim (Some (q, p0 ++ body)) (ok && (q =? (q0 + 1) mod 256)) rest Hf) as [H1 H2].
+      split; [exact H1|].
+      intros q' p' rest' E. specialize (H2 _ _ _ E). lia.
+    + destruct (IH lim (Some (q, body)) ok rest Hf) as [H1 H2]. split; [exact H1|].
       intros q' p' rest' E. specialize (H2 _ _ _ E). lia.
   - destruct (try_one i) as [[[q body] rest]|] eqn:Eo.
     + pose proof (try_one_rest _ _ _ _ Eo) as Hr.
-      destruct acc as [[q0 p0]|]; [destruct (_ =? _)|]; (split; [discriminate|]);
+      destruct acc as [[q0 p0]|]; [destruct (_ && _)|]; (split; [discriminate|]);
         intros q' p' rest' E; try discriminate; injection E as _ _ E3; subst rest'; exact Hr.
     + split; [discriminate | intros; discriminate].
 Qed.
@@ -299,13 +298,13 @@ Lemma packet_rest lim i q p rest :
   packet lim i = PDone q p rest -> (length rest + 4 <= length i)%nat.
 Proof. unfold packet. apply packet_f_ok. lia. Qed.
 
-(* what [next] guarantees: the only panic is PFragSeq; a returned packet consumed at least 4
-   inbound bytes; the inbound side never grows *)
+(* what [next] guarantees: it never panics (out-of-order fragment ids are an InvalidData error);
+   a returned packet consumed at least 4 inbound bytes; the inbound side never grows *)
 Definition next_try (s : st) : pres :=
   match s_buf s with [] => PNeed | _ :: _ => packet (s_lim s) (s_buf s) end.
 Definition next_post (s : st) (r : res (option (N * bytes))) (s' : st) : Prop :=
   match r with
-  | RPanic p => p = PFragSeq
+  | RPanic _ => False
   | ROk (Some _) => (ilen s' + 4 <= ilen s)%nat
   | _ => True
   end /\ (ilen s' <= ilen s)%nat.
@@ -356,22 +355,23 @@ Proof.
     + cbn [fst snd]. unfold next_post, ilen.
       cbn [set_buf upd_trace set_reads s_buf s_reads]. rewrite Er. cbn [reads_len].
       split; [exact I | lia].
-  - cbn [fst snd]. unfold next_post. split; [reflexivity | lia].
+  - cbn [fst snd]. unfold next_post. split; [exact I | lia].
   - contradiction.
 Qed.
 
 Lemma next_post_thm s : next_post s (fst (next s)) (snd (next s)).
 Proof. unfold next. apply next_f_post. lia. Qed.
 
-Lemma next_total s : fst (next s) <> RPanic POutOfFuel.
-Proof.
-  destruct (next_post_thm s) as [H _]. intro E. rewrite E in H. discriminate.
-Qed.
-(* the only panic of the packet layer: out-of-order fragment sequence ids *)
-Lemma next_panics s p : fst (next s) = RPanic p -> p = PFragSeq.
+(* the packet layer never panics: out-of-order fragment sequence ids are a parse failure *)
+Lemma next_never_panics s p : fst (next s) <> RPanic p.
 Proof.
   destruct (next_post_thm s) as [H _]. intro E. rewrite E in H. exact H.
 Qed.
+Lemma next_total s : fst (next s) <> RPanic POutOfFuel.
+Proof. apply next_never_panics. Qed.
+(* kept for its users: vacuously true, since next never panics *)
+Lemma next_panics s p : fst (next s) = RPanic p -> p = PFragSeq.
+Proof. intro E. exfalso. exact (next_never_panics s p E). Qed.
 
 (* bytes still to come from the client *)
 Definition inbound_len (s : st) : nat := (length (s_buf s) + reads_len (s_reads s))%nat.
@@ -388,7 +388,6 @@ Variable P : site -> Prop.
 Variable fpext : N -> N.
 Variable fptrunc : N -> N.
 Variable errtab : N -> option (N * bytes).
-Hypothesis HFragSeq : P PFragSeq.
 Hypothesis HSplitNull : P PParamsSplitNull.
 Hypothesis HSplitTypes : P PParamsSplitTypes.
 Hypothesis HBadType : P PParamsBadType.
@@ -524,7 +523,7 @@ Proof.
   - apply (H1 x (ilen s1)); lia.
   - apply H0; lia.
   - exact I.
-  - subst p. exact HFragSeq.
+  - destruct Ha.
 Qed.
 
 Lemma run_f_safe fuel : forall ss n, (n < fuel)%nat -> SF n (run_f fpext fptrunc errtab fuel ss).
@@ -544,7 +543,7 @@ Qed.
 Lemma NI_next : NI P next.
 Proof.
   intro s. destruct (next_post_thm s) as [Ha Hb]. split; [|exact Hb].
-  destruct (fst (next s)) as [x|e|p]; [exact I | exact I | subst p; exact HFragSeq].
+  destruct (fst (next s)) as [x|e|p]; [exact I | exact I | destruct Ha].
 Qed.
 Lemma NI_init cfg : NI P (init errtab cfg).
 Proof.
@@ -605,7 +604,7 @@ Proof.
   intro Hlt. apply RP_okp_fuel.
   apply (run_f_safe okp fpext fptrunc errtab ltac:(okp_hyps) ltac:(okp_hyps) ltac:(okp_hyps)
            ltac:(okp_hyps) ltac:(okp_hyps) ltac:(okp_hyps) ltac:(okp_hyps) ltac:(okp_hyps)
-           ltac:(okp_hyps) ltac:(okp_hyps) fuel ss (ilen s) Hlt s (le_n _)).
+           ltac:(okp_hyps) fuel ss (ilen s) Hlt s (le_n _)).
 Qed.
 Theorem run_on_total cfg sc s : fst (run_on fpext fptrunc errtab cfg sc s) <> RPanic POutOfFuel.
 Proof.
@@ -894,7 +893,7 @@ Lemma run_f_safe_t fuel : forall st sc n, scripts_tame sc -> (n < fuel)%nat ->
   SF cp n (run_f fpext fptrunc errtab fuel (st, sc)).
 Proof.
   induction fuel as [|f IH]; intros st sc n Ht Hlt; [lia|].
-  cbn [run_f]. apply (SF_bind_next cp cp_FragSeq).
+  cbn [run_f]. apply (SF_bind_next cp).
   - apply SF_W, W_ret.
   - intros [q pkt] m Hm. apply SF_bind_W; [apply W_set_seq | intros _].
     destruct (parse pkt) as [cmd|]; [|apply SF_W, W_fail].
@@ -911,7 +910,7 @@ Proof.
   intro H. unfold init.
   apply NI_bind; [apply W_NI, W_write_all | intros _].
   apply NI_bind; [apply W_NI, W_flush | intros _].
-  apply NI_bind; [apply (NI_next cp cp_FragSeq) | intros r].
+  apply NI_bind; [apply (NI_next cp) | intros r].
   apply W_NI. destruct (errtab 1045) as [[c state]|]; [|congruence]. tauto_w.
 Qed.
 
